@@ -468,6 +468,31 @@ Section C13Wild.
       split; [congruence|]. rewrite filter_app_, map_app, notifs_nondirs, A2. auto.
   Qed.
 
+  (* a directory is only ever notified with the path of a source directory of some match *)
+  Lemma overlay_srcs_notifs_dirs ms D0 : forall srcs V r sns, overlay_srcs o sroot ms D0 srcs V = inl r ->
+    Forall2 (fun s sn => s_resolve sroot (rooted s) = inl sn) srcs sns ->
+    forall q, In (q, true) (xr_notifs r) ->
+    exists j Lj snj rel s1, nth_error (xr_landings r) j = Some Lj /\ nth_error sns j = Some snj /\
+      q = Lj ++ rel /\ s_lookup snj rel = Some s1 /\ is_dir (sdent s1) = true.
+  Proof.
+    induction srcs as [|s0 rest IH]; intros V r sns; cbn [overlay_srcs].
+    - intro H; inversion H; subst. intros _ q [].
+    - intros H F. inversion F as [|? sn0 ? sns' Hs0 F']; subst. rewrite Hs0 in H.
+      destruct (overlay_one o ms multi sn0 s0 D0 V) as [r1|] eqn:E1; [|discriminate].
+      destruct (overlay_srcs o sroot ms D0 rest (xr_view r1)) as [r2|] eqn:E2; [|discriminate].
+      inversion H; subst r; clear H. cbn [xr_landings xr_notifs].
+      unfold overlay_one in E1. destruct (spec_resolve V (clean D0)) as [D|]; [|discriminate].
+      destruct (make_dirs o [] _ V) as [V1|]; [|discriminate].
+      destruct (if o_replace o then None else first_conflict V1 _ sn0); [discriminate|].
+      inversion E1; subst r1; clear E1. cbn [xr_landings xr_notifs app] in *.
+      intros q Hq. apply in_app_or in Hq. destruct Hq as [Hq|Hq].
+      + pose proof (s_resolve_wf_src sroot Hsrc _ _ Hs0) as Hwf.
+        destruct (notifs_dirs _ _ Hwf _ _ _ Hq) as (rel & s1 & A & B & C).
+        exists 0%nat. eexists. exists sn0, rel, s1. repeat split; eauto.
+      + destruct (IH _ _ _ E2 F' q Hq) as (j & Lj & snj & rel & s1 & A & B & C & D' & E').
+        exists (S j), Lj, snj, rel, s1. repeat split; auto.
+  Qed.
+
   (* notifications for wildcard sources: one per source non-directory, match by match, in order *)
   Theorem notifier_exact_wild_proof fs src dst r srcs sns :
     wf_fs fs -> overlay_all o sroot (view_of_fs fs) src dst = inl r ->
@@ -475,18 +500,26 @@ Section C13Wild.
     Forall2 (fun s sn => s_resolve sroot (rooted s) = inl sn) srcs sns ->
     exists st', copy_top o sel_all sroot fs src dst = (st', None) /\
       length (xr_landings r) = length srcs /\
-      map fst (filter (fun pb => negb (snd pb)) (rev (c_notifs st'))) = nd_paths_all (xr_landings r) sns.
+      map fst (filter (fun pb => negb (snd pb)) (rev (c_notifs st'))) = nd_paths_all (xr_landings r) sns /\
+      (forall q, In (q, true) (rev (c_notifs st')) ->
+         exists j Lj snj rel s1, nth_error (xr_landings r) j = Some Lj /\ nth_error sns j = Some snj /\
+           q = Lj ++ rel /\ s_lookup snj rel = Some s1 /\ is_dir (sdent s1) = true).
   Proof.
     intros Hfs Eo Hsrcs F.
     destruct (copy_overlay_links_proof o sroot Hsrc Hlc fs src dst r Hfs Eo) as (st' & E1 & _ & _ & EN).
     exists st'. split; auto. rewrite EN. clear EN E1.
+    cut ((length (xr_landings r) = length srcs /\
+          map fst (filter (fun pb => negb (snd pb)) (xr_notifs r)) = nd_paths_all (xr_landings r) sns) /\
+         (forall q, In (q, true) (xr_notifs r) ->
+            exists j Lj snj rel s1, nth_error (xr_landings r) j = Some Lj /\ nth_error sns j = Some snj /\
+              q = Lj ++ rel /\ s_lookup snj rel = Some s1 /\ is_dir (sdent s1) = true)); [tauto|].
     unfold overlay_all in Eo.
     destruct (match ensure_arg dst with [] => _ | _ => _ end) as [[X1 eps]|]; [|discriminate].
     destruct (match o_modestr o with [] => _ | _ => _ end) as [ms|]; [|discriminate].
     rewrite Hsrcs in Eo. destruct srcs as [|s0 srcs']; [discriminate|].
     destruct (overlay_srcs o sroot ms dst (s0 :: srcs') X1) as [r0|] eqn:E0; [|discriminate].
     inversion Eo; subst r; clear Eo. cbn [xr_landings xr_notifs].
-    eapply overlay_srcs_notifs; eauto.
+    split; [eapply overlay_srcs_notifs; eauto|eapply overlay_srcs_notifs_dirs; eauto].
   Qed.
 End C13Wild.
 
@@ -524,4 +557,87 @@ Example has_wild_e_examples :
   glob_e [92; 91; 42] [91; 97; 98] = true /\ glob_e [120; 92; 63; 63] [120; 63; 122] = true /\
   glob_e [120; 92; 63; 63] [120; 121; 122] = false.
 Proof. vm_compute. repeat split. Qed.
+
+(* ---- landing_clear: what is left of it ---- *)
+Lemma s_paths_spec : forall n, wf_s n -> forall p q, In q (s_paths p n) ->
+  exists rel s, q = p ++ rel /\ s_lookup n rel = Some s.
+Proof.
+  induction n as [nm ino sd kids IH] using snode_ind2. intros Hwf p q. cbn [s_paths].
+  apply wf_s_unfold in Hwf. destruct Hwf as (_ & _ & Hnd & Hall).
+  intros [<-|H]; [exists [], (SNode nm ino sd kids); rewrite app_nil_r; auto|].
+  assert (G : forall l, Forall wf_s l ->
+                Forall (fun n => wf_s n -> forall p q, In q (s_paths p n) ->
+                          exists rel s, q = p ++ rel /\ s_lookup n rel = Some s) l ->
+                In q ((fix go (l : list snode) := match l with [] => [] | k :: r => s_paths (p ++ [sname k]) k ++ go r end) l) ->
+                exists k rel s, In k l /\ q = (p ++ [sname k]) ++ rel /\ s_lookup k rel = Some s).
+  { induction l as [|k r IHr]; intros HW HF Hin; [destruct Hin|].
+    inversion HF as [|? ? Hk Hr]; inversion HW as [|? ? Hw1 Hw2]; subst.
+    apply in_app_or in Hin. destruct Hin as [Hin|Hin].
+    - destruct (Hk Hw1 _ _ Hin) as (rel & s & A & B). exists k, rel, s. split; [left|]; auto.
+    - destruct (IHr Hw2 Hr Hin) as (k' & rel & s & A & B). exists k', rel, s. split; [right|]; auto. }
+  destruct (G kids Hall IH H) as (k & rel & s & A & B & C).
+  exists (sname k :: rel), s. split; [rewrite B, <- app_assoc; auto|].
+  cbn [s_lookup skids]. rewrite (find_kid_in_nodup _ Hnd _ A). auto.
+Qed.
+
+Lemma below_not_prefix (L rel t : list (list N)) : rel <> [] -> L <> (L ++ rel) ++ t.
+Proof.
+  intros Hr E. rewrite <- app_assoc in E. rewrite <- (app_nil_r L) in E at 1. apply app_inv_head in E.
+  symmetry in E. apply app_eq_nil in E. destruct E. auto.
+Qed.
+
+Section Clear.
+  Variable o : copts.
+  Variable sroot : snode.
+  Hypothesis Hsrc : wf_src sroot.
+
+  (* one literal source: the directories made for the copy proper (prefixes of the target) and the
+     source's own paths never violate landing_clear; what remains is the ensure path of dst
+     (ensureDstPath): it is enough that the resolved ensure path is a prefix of the landing path *)
+  Lemma landing_clear_of_prefix V0 src dst r sn L :
+    o_wild o = false -> x_isdir (xview_of V0 []) = true -> overlay_all o sroot V0 src dst = inl r ->
+    s_resolve sroot (rooted src) = inl sn -> xr_landings r = [L] ->
+    (ensure_arg dst <> [] -> forall ep, spec_resolve (xview_of V0) (ensure_arg dst) = inl ep -> exists t, L = ep ++ t) ->
+    landing_clear r sn L.
+  Proof.
+    intros Hw Hroot Eo Hs HL Hens.
+    destruct (overlay_all_single o sroot Hsrc _ src dst r Hw Hroot Eo)
+      as (X1 & eps & ms' & sn' & D & V1 & B1 & B2 & B3 & B4 & B5 & B6 & B7 & B8 & B9 & B10 & B11 & B12).
+    rewrite Hs in B3. inversion B3; subst sn'. rewrite HL in B10. inversion B10 as [HL']. rewrite <- HL' in *. clear HL' B10.
+    pose proof (s_resolve_wf_src sroot Hsrc _ _ Hs) as Hwfn.
+    intros rel Hrel Hin. rewrite B12 in Hin.
+    apply in_app_or in Hin. destruct Hin as [Hin|Hin].
+    - exfalso. destruct B1 as [(_ & _ & ->)|(Hne & ep & E1 & _ & ->)]; [destruct Hin|].
+      destruct (Hens Hne ep E1) as (t & Et).
+      apply in_prefixes in Hin. destruct Hin as (r1 & r2 & E2 & E3). simpl in E3.
+      apply (below_not_prefix L rel (r2 ++ t) Hrel). rewrite E3, app_assoc, <- E2. exact Et.
+    - apply in_app_or in Hin. destruct Hin as [Hin|Hin].
+      + exfalso. apply in_prefixes in Hin. destruct Hin as (r1 & r2 & E2 & E3). simpl in E3.
+        destruct (o_dircontents o && is_dir (sdent sn) && negb (x_exists (X1 D))).
+        * apply (below_not_prefix L rel r2 Hrel). rewrite E3. exact E2.
+        * destruct (path_snoc_cases L) as [E0|(P & a & E0)].
+          -- rewrite E0 in E2. simpl in E2. destruct r1; [|discriminate]. rewrite E0 in E3. simpl in E3. subst rel. auto.
+          -- rewrite E0, parent_snoc in E2. apply (below_not_prefix L rel (r2 ++ [a]) Hrel).
+             rewrite E3, app_assoc, <- E2. exact E0.
+      + destruct (s_paths_spec _ Hwfn _ _ Hin) as (rel' & s & E & Es). apply app_inv_head in E. subst rel'. congruence.
+  Qed.
+End Clear.
+
+(* C13 for one literal source with landing_clear discharged: it is enough that the resolved
+   ensure path of dst is a prefix of the landing path *)
+Theorem copy_into_empty_faithful_ensure_proof o sroot (Hsrc : wf_src sroot) (Hlc : links_consistent sroot)
+  fs src dst r ms sn L m :
+  o_wild o = false -> empty_dst fs ->
+  overlay_all o sroot (view_of_fs fs) src dst = inl r ->
+  parse_of o = Some ms -> s_resolve sroot (rooted src) = inl sn ->
+  xr_landings r = [L] -> xr_merged r = [m] ->
+  (ensure_arg dst <> [] -> forall ep, spec_resolve (xview_of (view_of_fs fs)) (ensure_arg dst) = inl ep -> exists t, L = ep ++ t) ->
+  exists st', copy_top o sel_all sroot fs src dst = (st', None) /\
+              tree_iso o ms m sn L (view_of_fs (c_fs st')).
+Proof.
+  intros Hw Hemp Eo Hp Hs HL Hm Hens.
+  eapply copy_into_empty_faithful_proof; eauto.
+  destruct Hemp as (Hfs & _). destruct (inv_init o fs Hfs) as (_ & Hroot & _).
+  eapply landing_clear_of_prefix; eauto.
+Qed.
 
